@@ -49,7 +49,7 @@ func NewJSONAmmoDecoder(r io.Reader, buffSize int) AmmoDecoder {
 			// Need to suppress error, to distinguish parse error in last chunk and read error.
 			return n, nil
 		}
-		if err != nil {
+		if err != nil && readError == nil {
 			readError = err
 		}
 		return n, err
@@ -70,7 +70,10 @@ func (d *JSONAmmoDecoder) Decode(ammo core.Ammo) error {
 	// Nothing but whitespace left means the clean end of the input.
 	// Input that ends after a value has started is a truncated ammo, not the end of the ammo.
 	valueStarted := d.iter.WhatIsNext() != jsoniter.InvalidValue
-	d.iter.ReadVal(ammo)
+	if d.iter.Error == nil {
+		// (an error met while looking for the next value is final: reading on would only hide it)
+		d.iter.ReadVal(ammo)
+	}
 	if d.iter.Error != nil {
 		if *d.readErrorPtr != nil {
 			if *d.readErrorPtr == io.EOF && valueStarted {
